@@ -50,13 +50,14 @@ type c09Scenario struct {
 	PreAlloc          int
 	Submitters        [][]c09Sub
 
-	h        *Hist
-	probes   map[string]int
-	jobs     []*c09JobRec
-	handler  []c09Handled
-	stranded bool
-	settleAt uint64
-	closeAt  uint64
+	h            *Hist
+	probes       map[string]int
+	jobs         []*c09JobRec
+	handler      []c09Handled
+	stranded     bool
+	strandedInfo string
+	settleAt     uint64
+	closeAt      uint64
 }
 
 type c09JobRec struct {
@@ -115,7 +116,9 @@ func genC09(t *simrt.Tape, tier string) Scenario {
 		var subs []c09Sub
 		for k := 0; k < n; k++ {
 			sb := c09Sub{Via: []string{"Schedule", "Schedule", "ScheduleWithTimeout", "Invoke", "InvokeWithTimeout"}[t.Choose(5)]}
-			switch t.ChooseW([]int{5, 3, 2}) {
+			switch t.ChooseW([]int{5, 3, 2, 1}) {
+			case 3:
+				sb.Job.Kind = "spawn" // the job schedules a child job on the same pool
 			case 0:
 				sb.Job.Kind = "quick"
 			case 1:
@@ -123,6 +126,11 @@ func genC09(t *simrt.Tape, tier string) Scenario {
 				sb.Job.D = c09Dur(t, sc.Unit)
 			case 2:
 				sb.Job.Kind = "panic"
+			}
+			if sb.Via == "Invoke" && sb.Job.Kind == "spawn" {
+				// Invoke has no result: the harness cannot know whether (and wait until) the job was
+				// accepted and ran, so a child scheduled by it could arrive after the settle phase
+				sb.Job.Kind = "quick"
 			}
 			if sb.Via == "ScheduleWithTimeout" || sb.Via == "InvokeWithTimeout" {
 				sb.T = c09Dur(t, sc.Unit)
@@ -148,23 +156,38 @@ func (sc *c09Scenario) Run(s *simrt.Sim) {
 	sc.h = h
 	q := fpgo.NewBufferedChannelQueue[func()](sc.Cap, sc.BufMax, sc.Hook)
 	q.SetLoadFromPoolDuration(sc.LoadDur)
-	pool := worker.NewDefaultWorkerPool(q, nil)
-	pool.SetPanicHandler(func(v interface{}) {
-		sc.handler = append(sc.handler, c09Handled{at: s.Stamp(), val: fmt.Sprint(v)})
+	var pool *worker.DefaultWorkerPool
+	// The settings struct has unexported fields, so the pool can only be configured through its
+	// setters after construction. The configuration is applied as one step: otherwise the spawn loop
+	// could create workers under the default settings (stand-by 5, maximum 1000, expiry 5s) that are
+	// outside the configuration this run is about.
+	s.NoPreempt(func() {
+		pool = worker.NewDefaultWorkerPool(q, nil)
+		pool.SetPanicHandler(func(v interface{}) {
+			sc.handler = append(sc.handler, c09Handled{at: s.Stamp(), val: fmt.Sprint(v)})
+		})
+		pool.SetWorkerSizeMaximum(sc.Max).SetWorkerSizeStandBy(sc.StandBy).SetWorkerBatchSize(sc.Batch).
+			SetSpawnWorkerDuration(sc.SpawnDur).SetWorkerExpiryDuration(sc.ExpiryDur).SetWorkerJamDuration(sc.JamDur).SetScheduleRetryInterval(sc.RetryDur)
 	})
-	pool.SetWorkerSizeMaximum(sc.Max).SetWorkerSizeStandBy(sc.StandBy).SetWorkerBatchSize(sc.Batch).
-		SetSpawnWorkerDuration(sc.SpawnDur).SetWorkerExpiryDuration(sc.ExpiryDur).SetWorkerJamDuration(sc.JamDur).SetScheduleRetryInterval(sc.RetryDur)
 	if sc.PreAlloc > 0 {
 		pool.PreAllocWorkerSize(sc.PreAlloc)
 	}
-	mkJob := func(spec c09Job) (*c09JobRec, func()) {
+	var mkJob func(spec c09Job) (*c09JobRec, func())
+	mkJob = func(spec c09Job) (*c09JobRec, func()) {
 		rec := &c09JobRec{id: len(sc.jobs), spec: spec}
 		sc.jobs = append(sc.jobs, rec)
 		return rec, func() {
 			rec.starts = append(rec.starts, s.Stamp())
+			s.Event("job-start", fmt.Sprintf("job %d (%s)", rec.id, spec.Kind))
 			s.Yield()
 			if spec.Kind == "slow" {
 				s.Sleep(spec.D)
+			}
+			if spec.Kind == "spawn" {
+				// submission from inside a running job (a worker thread is the submitter)
+				child, cjob := mkJob(c09Job{Kind: "quick"})
+				child.sub = h.Do(fmt.Sprintf("job%d", rec.id), "Schedule", child.id, func() (interface{}, error) { return nil, pool.Schedule(cjob) })
+				sc.probes["job-scheduled-a-child"]++
 			}
 			s.Yield()
 			rec.ends = append(rec.ends, s.Stamp())
@@ -229,6 +252,7 @@ func (sc *c09Scenario) Run(s *simrt.Sim) {
 	}
 	if !s.WaitUntilTimeout(allRan, horizon) {
 		sc.stranded = true
+		sc.strandedInfo = fmt.Sprintf("job queue Count()=%d, channel length=%d, at t=%v", q.Count(), len(q.GetChannel()), s.Now())
 	}
 	// give in-flight Invoke jobs and panic handlers time to finish
 	s.Sleep(60 * sc.Unit)
@@ -349,7 +373,7 @@ func (sc *c09Scenario) Check(res *simrt.Result) []Violation {
 			if len(j.starts) > 0 {
 				why = "started but never finished"
 			}
-			add("exactly-once", "accepted-job-"+why2(why), fmt.Sprintf("%s: %s within the fair virtual-time horizon (2000 time units) after the last submission (pool left open); config max=%d standby=%d batch=%d expiry=%v", desc(j), why, sc.Max, sc.StandBy, sc.Batch, sc.ExpiryDur))
+			add("exactly-once", "accepted-job-"+why2(why), fmt.Sprintf("%s: %s within the fair virtual-time horizon (2000 time units) after the last submission (pool left open); config max=%d standby=%d batch=%d expiry=%v", desc(j), why, sc.Max, sc.StandBy, sc.Batch, sc.ExpiryDur)+"; "+sc.strandedInfo)
 		}
 	}
 	if accepted >= 2 {
